@@ -41,6 +41,7 @@ type Scenario struct {
 	TSInc   uint64
 	Fault   []FaultKind // per identity
 	FlagWO  []bool      // per identity: WatchOnly() callback returns true
+	WOAfterRestart []bool // per identity: the operator restarts this validator in watch-only mode (flag set from its second incarnation on)
 	Brains  int         // instances per FSplit identity
 
 	// network
@@ -454,6 +455,22 @@ func WatchScenario(t *Tape) *Scenario {
 		}
 		if sc.AMEV > 0 {
 			sc.AMEV = int64(sc.Start) + 1 + t.Range(SScen, 0, int64(sc.Heights))
+		}
+	}
+	if fOf(n) >= 1 && t.Chance(SScen, 1, 3) {
+		// instead of a validator that is watch-only from the start: one that takes part, crashes,
+		// and is restarted by its operator in watch-only mode (it may get its own earlier
+		// payloads back from its peers' recovery messages)
+		for i := range sc.FlagWO {
+			sc.FlagWO[i] = false
+		}
+		w := int(t.Draw(SScen, uint64(n)))
+		sc.Fault[w] = FAmnesia
+		sc.WOAfterRestart = make([]bool, n)
+		sc.WOAfterRestart[w] = true
+		sc.CrashPM = pick(t, SScen, uint64(10), 30, 60)
+		if t.Chance(SScen, 1, 2) && sc.AMEV < 0 {
+			sc.AMEV = 0
 		}
 	}
 	sc.GST = -1
